@@ -128,6 +128,9 @@ structure ListObs where
 
 structure StepObs where
   ok : Bool                  -- the operation returned no error
+  descOk : Bool              -- a successful PushSignature returned descriptors of what was pushed: the blob descriptor
+                             -- has the pushed media type (verbatim), the digest and size of the pushed bytes, and the
+                             -- manifest descriptor is the image manifest type with the pushed annotations (true otherwise)
   lists : List ListObs       -- one per query
   deriving DecidableEq, Repr, FromJson, ToJson
 
@@ -261,7 +264,7 @@ def runSteps (mode : Index) (qs : List Desc) : State → List Op → List StepOb
   | st, [] => ([], st)
   | st, o :: rest =>
     let r := step st o
-    let so : StepObs := { ok := r.2, lists := qs.map (listObs mode r.1) }
+    let so : StepObs := { ok := r.2, descOk := true, lists := qs.map (listObs mode r.1) }
     let t := runSteps mode qs r.1 rest
     (so :: t.1, t.2)
 
@@ -425,6 +428,8 @@ def clauses (i : Input) (o : Obs) : Clauses :=
   [ ("input_wellformed", wf i),
     ("shape", shapeOk i o),
     -- identical envelope bytes are refused by the store ("already exists"); everything else is accepted
+    -- what PushSignature hands back describes what was pushed (media type exactly as given)
+    ("push_returns_descriptor_of_what_was_pushed", o.steps.all (·.descOk)),
     ("push_accepted_iff_envelope_new",
       (stepPairs [] i.ops o.steps).all (fun (h, op, so) => so.ok == succeeds h op)),
     -- listing yields exactly the signature manifests pushed for that artifact, in order of arrival
